@@ -24,7 +24,7 @@ cd /verif
 export VERIF_EVIDENCE_DIR=$(mktemp -d /dev/shm/verif-mut-evidence.XXXXXX)
 rc_all=0
 for id in "$@"; do
-  out=$(./vcheck "$id" --tier "${VERIF_TIER:-quick}" 2>&1); rc=$?
+  out=$(VERIF_WORKER_MEM_GB=${VERIF_WORKER_MEM_GB:-6} ./vcheck "$id" --tier "${VERIF_TIER:-quick}" 2>&1); rc=$?
   echo "== $id rc=$rc :: $(echo "$out" | grep -E 'VIOLATION|HARNESS|KNOWN-FINDING' | head -3 | cut -c1-300)"
   echo "$out" | grep -E "counterexample" | head -2 | cut -c1-400
   if [ $rc -ge 2 ]; then echo "--- harness error output (tail) ---"; echo "$out" | tail -25 | cut -c1-300; echo "---"; fi
